@@ -52,14 +52,14 @@ def steps_for(pre: TS.Pre, tier):
         out.append((f"drop({vis[0]})", lambda pre, t: t >> pdt.drop(col_of(pre, pre.vis[0]))) if len(vis) > 1 else ("ungroup2", lambda pre, t: t >> pdt.ungroup()))
     # rename one / two visible columns to arbitrary new names
     for i in vis:
-        out.append((f"rename({i}->r0)", lambda pre, t, i=i: t >> pdt.rename({pre.phys[i]: SymName("r0")})))
+        out.append((f"rename({i}->r0)", lambda pre, t, i=i: t >> pdt.rename({pre.phys[i]: pre.nn("r0")})))
     for i, j in itertools.combinations(vis, 2):
-        out.append((f"rename({i}->r0,{j}->r1)", lambda pre, t, i=i, j=j: t >> pdt.rename({pre.phys[i]: SymName("r0"), col_of(pre, j): SymName("r1")})))
+        out.append((f"rename({i}->r0,{j}->r1)", lambda pre, t, i=i, j=j: t >> pdt.rename({pre.phys[i]: pre.nn("r0"), col_of(pre, j): pre.nn("r1")})))
     # mutate: one / two keyword arguments with arbitrary names, referencing visible and hidden columns
     for i in range(w):
-        out.append((f"mutate(k0=c{i}+1)", lambda pre, t, i=i: t >> pdt.mutate(**{SymName("k0"): col_of(pre, i) + 1})))
+        out.append((f"mutate(k0=c{i}+1)", lambda pre, t, i=i: t >> pdt.mutate(**{pre.nn("k0"): col_of(pre, i) + 1})))
     if w >= 2:
-        out.append(("mutate(k0=c0+1,k1=c1*2)", lambda pre, t: t >> pdt.mutate(**{SymName("k0"): col_of(pre, 0) + 1, SymName("k1"): col_of(pre, 1) * 2})))
+        out.append(("mutate(k0=c0+1,k1=c1*2)", lambda pre, t: t >> pdt.mutate(**{pre.nn("k0"): col_of(pre, 0) + 1, pre.nn("k1"): col_of(pre, 1) * 2})))
     out.append(("filter(c0>0)", lambda pre, t: t >> pdt.filter(col_of(pre, 0) > 0)))
     out.append(("arrange(c0)", lambda pre, t: t >> pdt.arrange(col_of(pre, 0).descending())))
     if not pre.grp:
@@ -69,9 +69,9 @@ def steps_for(pre: TS.Pre, tier):
         out.append((f"group_by({i},add)", lambda pre, t, i=i: t >> pdt.group_by(col_of(pre, i), add=True)))
     out.append(("ungroup", lambda pre, t: t >> pdt.ungroup()))
     for i in range(w):
-        out.append((f"summarize(k0=c{i}.sum)", lambda pre, t, i=i: t >> pdt.summarize(**{SymName("k0"): col_of(pre, i).sum()})))
+        out.append((f"summarize(k0=c{i}.sum)", lambda pre, t, i=i: t >> pdt.summarize(**{pre.nn("k0"): col_of(pre, i).sum()})))
     if w >= 2:
-        out.append(("summarize(k0=c0.max,k1=count)", lambda pre, t: t >> pdt.summarize(**{SymName("k0"): col_of(pre, 0).max(), SymName("k1"): pdt.count()})))
+        out.append(("summarize(k0=c0.max,k1=count)", lambda pre, t: t >> pdt.summarize(**{pre.nn("k0"): col_of(pre, 0).max(), pre.nn("k1"): pdt.count()})))
     out.append(("alias", lambda pre, t: t >> pdt.alias("z")))
     out.append(("alias_keep", lambda pre, t: t >> pdt.alias(keep_col_refs=True)))
     return out
@@ -119,7 +119,94 @@ def polars_coupling(c, state, node=None):
     return obs
 
 
+def sql_coupling(c, state, select_model, node=None):
+    table, query, sqa_expr = state
+    sel, pb = list(query.select), [col._uuid for col in query.partition_by]
+    names_of = dict(sqa_expr)
+    if isinstance(node, TS.verbs_tree.Alias) and node.uuid_map is not None:
+        m = node.uuid_map
+        names_of = {m[u]: e for u, e in sqa_expr.items() if u in m}
+        sel = [m[u] for u in sel]
+        pb = [m[u] for u in pb]
+    obs = []
+    names = list(c.name_to_uuid.keys())
+    obs.append(("J'5: every in-scope uuid has a SQL expression", z3.BoolVal(all(u in names_of for u in c.cols))))
+    ok = all(u in names_of for u in sel)
+    obs.append(("J': every selected uuid has a SQL expression", z3.BoolVal(ok)))
+    if ok:
+        obs.append(("J'1: columns() equals the labels of the SQL select list, in order", TS.seq_eq(names, [names_of[u].name for u in sel])))
+    obs.append(("J'2: visible uuids equal the SQL select list, in order", z3.BoolVal(list(c.name_to_uuid.values()) == sel)))
+    obs.append(("J'4: grouping columns agree", z3.BoolVal(list(c.partition_by) == pb)))
+    if select_model is not None:
+        out = [x.name for x in select_model.selected_columns]
+        obs.append(("SELECT statement lists the columns of columns(), in order", TS.seq_eq(out, names)))
+    return obs
+
+
 def run_step(pre_factory, label, fn, backend):
+    if backend == "sql":
+        return run_step_sql(pre_factory, label, fn)
+    return run_step_polars(pre_factory, label, fn)
+
+
+def _prelude(pre, carve):
+    wit = {f"name{i}": p.t for i, p in enumerate(pre.phys)}
+    wit.update({f"cname{i}": p.t for i, p in enumerate(pre.cname)})
+    for k in ("r0", "r1", "k0", "k1"):
+        wit[k] = z3.String(k)
+    extra = []
+    for nm in pre.phys + pre.cname + [SymName("r0"), SymName("r1"), SymName("k0"), SymName("k1")]:
+        for d in ("__copy__", "__deepcopy__", "__setstate__", "__getstate__", "self", "table"):
+            extra.append(nm.t != z3.StringVal(d))
+    return wit, extra
+
+
+REJECT = (ValueError, TypeError)
+
+
+def run_step_sql(pre_factory, label, fn):
+    def run(carve):
+        plmodel.reset_state()
+        pre = pre_factory()
+        pre.backend_cls = H.sqlite_backend.SqliteImpl
+        wit, extra = _prelude(pre, carve)
+
+        def body():
+            t = pre.table()
+            with TS.sql_step([pre]) as real_compile:
+                try:
+                    new = fn(pre, t)
+                except (ValueError, TypeError, pdt.errors.ColumnNotFoundError, pdt.errors.DataTypeError, pdt.errors.FunctionTypeError, pdt.errors.SubqueryError) as e:
+                    return ("rejected", e)
+                final = TS.Cache.selected_cols(new._cache)
+                node = new._ast
+                needed = {c._uuid: 1 for c in final}
+                if isinstance(node, TS.verbs_tree.Alias) and node.uuid_map is not None:
+                    inv = {v: k for k, v in node.uuid_map.items()}
+                    needed = {inv[u]: 1 for u in needed}
+                state = real_compile(node, needed)
+                sel = H.sqlite_backend.SqliteImpl.compile_query(*state)
+                return ("ok", new, state, sel)
+
+        paths = explore(body, base_pc=pre.facts + extra, catch=(Exception,))
+        vc = VC(f"[{pre.skel}] {label}: Cache after the verb satisfies M1 and is coupled (J') with the state computed by SqlImpl.compile_ast; the SELECT built by compile_query lists columns() in order")
+        for p in paths:
+            vc.paths += 1
+            if p.kind == "exc":
+                vc.require(p.pc, z3.BoolVal(False), f"an accepted verb makes the SQL compilation fail: {type(p.value).__name__}: {str(p.value)[:200]}", wit)
+                continue
+            if p.value[0] == "rejected":
+                vc.queries += 1
+                continue
+            _, new, state, sel = p.value
+            for lab, cond in cache_invariant(new._cache, "hidden_group_col" not in carve) + sql_coupling(new._cache, state, sel, new._ast):
+                vc.require(p.pc, cond, lab, wit)
+        return vc.outcome()
+
+    return run
+
+
+def run_step_polars(pre_factory, label, fn):
     def run(carve):
         plmodel.reset_state()
         pre = pre_factory()
@@ -174,12 +261,76 @@ def run_step(pre_factory, label, fn, backend):
     return run
 
 
-def make_replayer(label):
-    def replay(model):
-        import polars as pl
+class ConcretePre:
+    """a real table with the shape of a skeleton and the names of a counter-model (native replay)"""
 
-        # concrete instance: columns a, b, c with the names of the counter-model
-        return {"reproduced": False, "text": "see counter-model (names of the pre-state columns and of the new columns); replay the verb on a table with these names"}
+    def __init__(self, skel, model, backend):
+        import polars as pl
+        import sqlalchemy as sqa
+
+        self.skel = skel
+        w = skel.w
+        used = set()
+        self.phys = []
+        for i in range(w):
+            n = model.get(f"name{i}")
+            if not isinstance(n, str) or n in used:
+                n = f"col{i}"
+            used.add(n)
+            self.phys.append(n)
+        self.new = {k: (model.get(k) if isinstance(model.get(k), str) else k) for k in ("r0", "r1", "k0", "k1")}
+        self.vis = [i for i, c in enumerate(skel.cols) if c != "hid"]
+        self.grp = [i for i, c in enumerate(skel.cols) if c == "grp"]
+        created, used2 = [], set()
+        for i in range(w):
+            n = model.get(f"cname{i}")
+            if not isinstance(n, str) or n in used2 or n == "":
+                n = self.phys[i] if self.phys[i] not in used2 and self.phys[i] != "" else f"created{i}"
+            used2.add(n)
+            created.append(n)
+        df = pl.DataFrame({n: [1, 2, 3] for n in created})
+        if backend == "polars":
+            t = pdt.Table(df, name="t")
+        else:
+            eng = sqa.create_engine("sqlite://")
+            df.write_database("t", eng)
+            t = pdt.Table("t", pdt.SqlAlchemy(eng))
+        self.base = t
+        ren = {c: p for c, p in zip(created, self.phys) if c != p}
+        if ren:
+            t = t >> pdt.rename(ren)
+        self.cols = [t[n] for n in self.phys]
+        self.uuids = [c._uuid for c in self.cols]
+        self.dtypes = [c._dtype for c in self.cols]
+        self.ftypes = [c._ftype for c in self.cols]
+        self.node = t._ast
+        self.created = created
+        t = t >> pdt.select(*[self.cols[i] for i in self.vis])
+        if self.grp:
+            t = t >> pdt.group_by(*[self.cols[i] for i in self.grp])
+        self.tbl = t
+
+    def nn(self, k):
+        return self.new[k]
+
+
+def make_replayer(skel, label, fn, backend):
+    def replay(model):
+        try:
+            cp = ConcretePre(skel, model, backend)
+        except Exception as e:  # noqa: BLE001
+            return {"reproduced": False, "text": f"could not build the concrete table: {type(e).__name__}: {e}"}
+        desc = f"table columns {cp.phys} (created as {cp.created}; visible {[cp.phys[i] for i in cp.vis]}, grouped {[cp.phys[i] for i in cp.grp]}), step {label} with new names {cp.new}"
+        try:
+            new = fn(cp, cp.tbl)
+        except Exception as e:  # noqa: BLE001
+            return {"reproduced": False, "text": f"{desc}: the verb rejects this input ({type(e).__name__}: {str(e)[:120]})"}
+        cols = new >> pdt.columns()
+        try:
+            out = (new >> pdt.export(pdt.Polars())).columns
+        except Exception as e:  # noqa: BLE001
+            return {"reproduced": True, "text": f"{desc}: accepted by the verb, columns()={cols}, but export on {backend} raises {type(e).__name__}: {str(e)[:200]}"}
+        return {"reproduced": list(out) != list(cols), "text": f"{desc}: columns()={cols}, exported frame columns on {backend}={list(out)}"}
 
     return replay
 
@@ -208,6 +359,9 @@ def obligations(tier):
     max_w = 3 if tier == "quick" else 3
     fns = [fi(TS.Cache.update), fi(H.polars_backend.compile_ast), fi(H.polars_backend.rename_overwritten_cols), fi(pdt._internal.pipe.pipeable.modify_ast), fi(pdt._internal.pipe.pipeable.check_subquery),
            fi(verbs_mod.preprocess_arg), fi(TS.Table.__getitem__), fi(TS.Table.__getattr__), fi(TS.Table.__iter__), fi(TS.Table.__contains__), fi(TS.Table.__len__), fi(TS.Table.__dir__)]
+    SI = H.sql_backend.SqlImpl
+    sql_fns = [fi(TS.Cache.update), fi(SI.compile_ast), fi(SI.compile_query), fi(SI.compile_col_expr), fi(pdt._internal.pipe.pipeable.modify_ast), fi(pdt._internal.pipe.pipeable.check_subquery),
+               fi(TS.Cache.requires_subquery), fi(verbs_mod.preprocess_arg), fi(TS.Cache.selected_cols)]
     obs = [Obligation("C11/base/source_table", "M2", "base case: source table", base_case_run, functions=[fi(TS.Cache.from_ast), fi(H.polars_backend.compile_ast)], bounded="1-3 source columns (concrete)")]
     skels = list(TS.skeletons(max_w))
     if tier == "quick":
@@ -224,9 +378,23 @@ def obligations(tier):
                     "M1+M2+M4",
                     f"{label} on a table {skel}: metadata invariant and coupling with the Polars state are preserved",
                     run_step(pf, label, fn, "polars"),
+                    replayer=make_replayer(skel, label, fn, "polars"),
                     functions=fns,
                     bounded=f"table width {skel.w} (<= {max_w} columns; names symbolic, visibility/grouping enumerated)",
                     carveouts={"new_names_fresh": "new names distinct from existing / non-empty", "whole": "whole obligation", "hidden_group_col": "do not require grouping columns to stay visible"},
+                    tags=("cross_backend",),
+                )
+            )
+            obs.append(
+                Obligation(
+                    f"C11/M3/sql/{skel}/{label}",
+                    "M1+M3",
+                    f"{label} on a table {skel}: metadata invariant and coupling with the SQL state are preserved",
+                    run_step(pf, label, fn, "sql"),
+                    replayer=make_replayer(skel, label, fn, "sqlite"),
+                    functions=sql_fns,
+                    bounded=f"table width {skel.w} (<= {max_w} columns; names symbolic, visibility/grouping enumerated)",
+                    carveouts={"hidden_group_col": "do not require grouping columns to stay visible"},
                     tags=("cross_backend",),
                 )
             )
